@@ -9,6 +9,7 @@ package codec
 import (
 	"fmt"
 
+	"google.golang.org/protobuf/encoding/prototext"
 	"google.golang.org/protobuf/proto"
 	"google.golang.org/protobuf/reflect/protoreflect"
 	"pgregory.net/rapid"
@@ -265,21 +266,37 @@ func c12RunHist(c C12Case, m proto.Message, ty c12Type, bi *c12BuildInfo) (final
 			if err != nil {
 				return nil, nil, nil, fail("%s: history step %s: proto.Marshal of a fresh message failed: %v", name, step, err)
 			}
+			in := append([]byte(nil), b...)
 			switch st.Op {
 			case c12OpPU:
-				err = proto.Unmarshal(b, m) // resets m, then decodes: m == cur
+				err = proto.Unmarshal(in, m) // resets m, then decodes: m == cur
 				known = true
 			case c12OpPMerge:
-				err = proto.UnmarshalOptions{Merge: true}.Unmarshal(b, m)
+				err = proto.UnmarshalOptions{Merge: true}.Unmarshal(in, m)
 				known = false
 			case c12OpVU:
 				if hasVT {
-					err = vt.UnmarshalVT(b) // merges into m
+					err = vt.UnmarshalVT(in) // merges into m
 					known = false
 				}
 			}
 			if err != nil {
 				return nil, nil, nil, fail("%s: history step %s failed on a valid encoding: %v", name, step, err)
+			}
+			// input buffer independence: the object must not change when the buffer it was
+			// decoded from is overwritten. Snapshot as text (reflection only: no encoder
+			// touches the object here, and text formatting copies the string data).
+			if len(in) > 0 {
+				before := c12Snapshot(m)
+				c12Invert(in) // every byte changes
+				after := c12Snapshot(m)
+				clear(in)
+				if after != before {
+					return nil, nil, nil, fail("%s: history step %s: the object changed when the input buffer was overwritten after decoding (it aliases the buffer): before {%s} after {%s}", name, step, c12Clip(before), c12Clip(after))
+				}
+				if st.Op == c12OpPU && !proto.Equal(m, src) {
+					return nil, nil, nil, fail("%s: history step %s: decoding into the (reset) object did not give the encoded value: got {%s} want {%s}", name, step, c12Text(m), c12Text(src))
+				}
 			}
 		case c12OpSet:
 			if st.To == nil {
@@ -355,6 +372,18 @@ func c12RunHist(c C12Case, m proto.Message, ty c12Type, bi *c12BuildInfo) (final
 		}
 	}
 	return cur, want, classes, nil
+}
+
+// c12Snapshot renders m completely (prototext is deterministic within one process).
+func c12Snapshot(m proto.Message) string {
+	return prototext.MarshalOptions{Multiline: false}.Format(m)
+}
+
+func c12Clip(s string) string {
+	if len(s) > 1500 {
+		return s[:1500] + "…"
+	}
+	return s
 }
 
 // c12RefSize: encoded size of a message nobody else holds (a throw-away fresh build).
@@ -485,9 +514,6 @@ func c12EditOnce(t *rapid.T, md protoreflect.MessageDescriptor, msg *C12Msg, dep
 			f.KV[j].V = c12GenElem(t, fd.MapValue(), depth, g)
 		default: // insert a key (replaces the value if the key exists)
 			k := c12GenScalar(t, fd.MapKey())
-			if fd.MapKey().Kind() == protoreflect.StringKind && k.R > 300 {
-				k.R = 300
-			}
 			v := c12GenElem(t, fd.MapValue(), depth, g)
 			ks := c12KeyString(fd.MapKey(), k)
 			found := false
